@@ -1,8 +1,22 @@
-"""C20 -- contracts (proof part under construction) + bounded stand-in."""
-from pyvc.runner import Bounded
+"""C20 -- libpass hashers and classic passlib hashers understand each other."""
+from contracts import shacrypt
+from contracts.c04 import CONTRACTS as _C04
+from pyvc.runner import Bounded, Finite
 
 LEVEL = "other"
-EXPLANATION = "bounded stand-in only so far: the contracts of this property are checked on the real functions over the stated finite domains (see coverage.bounded); nothing is counted as proved."
-ASSUMPTIONS = []
-CONTRACTS = []
-BOUNDED = [Bounded("c20", "harness/c20.py", descr="see harness docstring", timeout=900)]
+EXPLANATION = (
+    "Cross verification passlib <-> libpass on grids (bounded stand-in): six formats x passwords x non-empty salts x "
+    "costs, each direction, equal digests, independent oracle, identify-own-format, needs_update, scheme lists of "
+    "length 1..3. Proved part: the libpass CryptContext contracts (hash with the first scheme, verify with any, update "
+    "asked exactly for hashes not in the first scheme's format; shared with C04) in the quick tier; in the thorough tier "
+    "both SHA-crypt cores (passlib's _raw_sha2_crypt and libpass' _sha_crypt) are verified from their real source to "
+    "compute the same published schedule over the same abstract hash, hence agree for every password, salt and round "
+    "count; the two copies of the schedule / transposition tables are identical (finite)."
+)
+ASSUMPTIONS = [
+    "hash objects: view = bytes absorbed, update appends, digest() = H(view) (hashlib contract)",
+    "bcrypt, hashlib and base64 are trusted oracles of the bounded comparison",
+]
+CONTRACTS = [c for c in _C04 if c.id.startswith("libpass.CryptContext")] + [shacrypt.passlib_contract("C20", False), shacrypt.libpass_contract("C20")]
+FINITE = [Finite("sha-crypt-tables-identical", shacrypt.tables_equal, "passlib and libpass carry identical _c_digest_offsets / transposition tables")]
+BOUNDED = [Bounded("c20", "harness/c20.py", descr="cross verification passlib <-> libpass on grids", timeout=900)]
